@@ -19,9 +19,13 @@ def corrupt(tr):
     tr = copy.deepcopy(tr)
     evs = tr['events']
     i = rng.randrange(1, len(evs))
+    exprs = [j for j, e in enumerate(evs) if e.get('op') == 'add_expr' and e['a'].get('tokens')]
+    force_expr = bool(exprs) and rng.random() < 0.4
+    if force_expr:
+        i = rng.choice(exprs)
     ev = evs[i]
     p = ev['post']
-    k = rng.randrange(16)
+    k = 15 if force_expr else rng.randrange(16)
     n = len(p['succ'])
     j = rng.randrange(n)
     what = ''
@@ -64,6 +68,15 @@ def corrupt(tr):
             if isinstance(val, list) and val and isinstance(val[0], str):
                 val[0] = 'zz_unknown'; what = 'arg names'
                 break
+    elif k == 15 and ev.get('op') == 'add_expr' and ev['a'].get('tokens'):
+        toks = ev['a']['tokens']
+        x = rng.randrange(len(toks))
+        if rng.random() < 0.5:
+            toks.pop(x); what = 'drop a token'
+        else:
+            toks[x] = dict(k='sym', s=rng.choice([')', '/\\', ':', 'zz']), n=0); what = 'replace a token'
+    elif k == 15 and ev.get('handles'):
+        ev['handles'][0][1] = n + 3; what = 'handle node'
     else:
         p['succ'][0] = [rng.choice([0, 1, 9]), 0, 0]; what = 'terminal level'
     tr['fuzz'] = dict(event=i + 1, what=what)
@@ -73,9 +86,15 @@ def corrupt(tr):
 bad = 0
 for r in range(rounds):
     base = []
-    for t in range(6):
-        prof = ['core', 'core', 'reorder', 'decl', 'stream', 'core'][t]
-        if prof == 'reorder':
+    for t in range(9):
+        prof = ['core', 'core', 'reorder', 'decl', 'stream', 'core', 'wide', 'wide_expr', 'autoref'][t]
+        if prof.startswith('wide'):
+            from harness.drivers import wide
+            tr = wide.wide_history(t, seed * 100 + r * 10 + t, 9, 14, focus='expr' if prof == 'wide_expr' else 'mixed')
+        elif prof == 'autoref':
+            from harness.drivers import autoref_hist
+            tr = autoref_hist.autoref_history(t, seed * 100 + r * 10 + t, 3, 30)
+        elif prof == 'reorder':
             tr = history.reorder_history(t, seed * 100 + r * 10 + t, 4, 25)
         elif prof == 'decl':
             tr = history.decl_history(t, seed * 100 + r * 10 + t, 40)
